@@ -156,10 +156,17 @@ fn hoist_shared_new<T>(x: T) -> (r: Shared<T>) ensures *r == x { Shared::new(x) 
 fn hoist_into_shared<T>(x: T) -> (r: Shared<T>) ensures *r == x { x.into() }
 // `Arc::new(e)` for the cached error
 #[verifier::external_body]
-fn hoist_arc_new(e: PdfError) -> (r: Arc<PdfError>) ensures *r == e { Arc::new(e) }
-// R3: `PdfError::Shared { source: e.clone() }` -- the twin keeps the source in a Box
+fn hoist_arc_new<T>(e: T) -> (r: Arc<T>) ensures *r == e { Arc::new(e) }
+// R3: `PdfError::Shared { source: <Arc<PdfError>> }` -- the twin keeps the source in a Box; the argument is the source expression
+// of the construction site, verbatim (`e.clone()` / `Arc::clone(&e)` are read by vstd's Arc model: the same value)
 #[verifier::external_body]
-fn hoist_shared_source(e: &Arc<PdfError>) -> (r: Box<PdfError>) ensures *r == **e { unimplemented!() }
+fn hoist_shared_box(e: Arc<PdfError>) -> (r: Box<PdfError>) ensures *r == *e { unimplemented!() }
+// `Arc::try_unwrap(a)` (std: `Ok(inner value)` if `a` is the only strong reference, else `Err(a)`; which of the two is not
+// modelled -- both outcomes are possible for the verifier)
+#[verifier::external_body]
+fn hoist_arc_try_unwrap<T>(a: Arc<T>) -> (r: core::result::Result<T, Arc<T>>)
+    ensures match r { Ok(v) => v == *a, Err(b) => b == a }
+{ /* hoisted text: `Arc::try_unwrap(a)` (T need not be Debug/Clone here) */ unimplemented!() }
 
 pub open spec fn root(e: PdfError) -> PdfError
     decreases e
